@@ -181,13 +181,14 @@ func c18Chain(t *rapid.T, subject string) string {
 
 func genC18(t *rapid.T) (C18Case, []string) {
 	ctx := c18Ctx(t)
-	tm := map[string]string{"inc": "{% set l = l|merge([100]) %}{% for q in l %}{% set q = 0 %}{% endfor %}{{ l|sort|join(',') }}"}
+	tm := map[string]string{"inc": "{% set l = l|merge([100]) %}{% for q in l %}{% set q = 0 %}{% endfor %}{{ l|sort|join(',') }}",
+		"lib": "{% macro tag(x) %}<{{ x }}>{% endmacro %}{% macro other() %}o{% endmacro %}"}
 	var parts []string
 	var cl []string
 	np := rapid.IntRange(1, 4).Draw(t, "nparts")
 	for i := 0; i < np; i++ {
 		coll := rapid.SampledFrom(c18Colls).Draw(t, "coll")
-		switch rapid.IntRange(0, 9).Draw(t, "form") {
+		switch rapid.IntRange(0, 10).Draw(t, "form") {
 		case 0, 1, 2:
 			parts = append(parts, "{{ "+c18Chain(t, coll)+"|"+rapid.SampledFrom(c18Ends).Draw(t, "end")+" }}")
 			cl = append(cl, "filter-chain")
@@ -210,6 +211,10 @@ func genC18(t *rapid.T) (C18Case, []string) {
 		case 8:
 			parts = append(parts, "{% set "+strings.Split(coll, ".")[0]+" = "+c18Chain(t, coll)+" %}{{ "+strings.Split(coll, ".")[0]+"|json_encode }}")
 			cl = append(cl, "rebind-context-name")
+		case 9:
+			mp := rapid.SampledFrom([]string{"m", "nest", "m_alias"}).Draw(t, "importalias")
+			parts = append(parts, "{{ "+mp+"|keys|join(',') }}{% import 'lib' as "+mp+" %}{{ "+mp+".tag(1) }}")
+			cl = append(cl, "import-alias-collides-with-context-map")
 		default:
 			parts = append(parts, "{{ merge("+coll+", ys)|sort|join(',') }}{{ max("+coll+") }}{{ cycle("+coll+", 1) }}{{ range(1, 3)|merge("+coll+")|join(',') }}")
 			cl = append(cl, "functions")
@@ -243,6 +248,7 @@ func checkC18Race(c C18Case) error {
 	e.EnableSandbox(allowAll{})
 	e.Load("main")
 	e.Load("inc")
+	e.Load("lib")
 	want := render(e, "main", zooCtx(c.Ctx, 0))
 	var wg sync.WaitGroup
 	errs := make(chan error, 8)
